@@ -479,7 +479,7 @@ class Batch:
                 else:
                     self.crash_classes[cls]["count"] += 1
             if first and last >= cur:
-                self.isolate_and_minimise(binary, last, cls, extra)
+                self.isolate_and_minimise(binary, last, cls, extra, start=cur)
             elif last >= cur:
                 self.add_viol(cls, "crash", None, 1 << 30)
             restarts += 1
@@ -489,7 +489,17 @@ class Batch:
                     self.abandoned.append((cur, b))
                 return
 
-    def isolate_and_minimise(self, binary, run, cls, extra):
+    def range_replay_file(self, binary, a, run, cls, sig):
+        """A replay file that re-executes the runs a..run of this batch in one fresh process."""
+        rf = os.path.join(self.scratch, "range_%d_%d.replay" % (a, run))
+        vname = os.path.basename(binary).split("_")[-1]
+        knob = "knob min=%d\n" % SEVS.index(vname) if vname in SEVS else ("knob min=0\nknob atomics=1\n" if vname == "atomics" else "")
+        with open(rf, "w") as f:
+            f.write("nitro-verif-replay 1\nengine %s property %s seed %d run %d tier %s\n%srange from=%d to=%d\nexpect class=%s at_op=-1 sig=\"%s\" detail=\"\"\n"
+                    % (self.engine, self.prop, self.seed, run, self.tier, knob, a, run, cls, sig))
+        return rf
+
+    def isolate_and_minimise(self, binary, run, cls, extra, start=None):
         planfile = os.path.join(self.scratch, "crash_%s_%d.plan" % (os.path.basename(binary), run))
         cmd = [binary, "--prop", self.prop, "--seed", str(self.seed), "--tier", self.tier,
                "--from", str(run), "--to", str(run + 1), "--outdir", self.outdir, "--isolate",
@@ -497,6 +507,21 @@ class Batch:
         r = run_cmd(cmd, timeout=120)
         cls2 = self.prop + "/" + classify_stderr(r.stderr, r.returncode)
         if r.returncode == 0 or not os.path.exists(planfile):
+            # The run alone is clean in a fresh process: the death needed what earlier runs of that
+            # worker left behind in the code under test (an initialised static, a cache).  Try the
+            # range of runs the worker had executed, twice, in fresh processes.
+            if start is not None and start < run:
+                rf = self.range_replay_file(binary, start, run, cls, "crash")
+                hits = 0
+                for _ in range(2):
+                    rr = run_cmd([binary, "--replay", rf, "--prop", self.prop] + extra, timeout=900)
+                    if rr.returncode not in (0, 1, 2, 3) and self.prop + "/" + classify_stderr(rr.stderr, rr.returncode) == cls:
+                        hits += 1
+                if hits == 2:
+                    out = os.path.join(self.outdir, "%s-crash-range-s%dr%d.replay" % (re.sub(r"[^A-Za-z0-9_\-]", "_", cls.split("/", 1)[1]), self.seed, run))
+                    shutil.copy(rf, out)
+                    self.add_viol(cls, "crash", out, 1 << 20)
+                    return
             self.harness_errors.append("crash in run %d (%s) did not reproduce in isolation (rc=%s)" % (run, cls, r.returncode))
             return
         out = os.path.join(self.outdir, "%s-crash-s%dr%d.replay" % (re.sub(r"[^A-Za-z0-9_\-]", "_", cls2.split("/", 1)[1]), self.seed, run))
@@ -540,12 +565,7 @@ def resolve_nondet(batch):
             continue
         # the plan alone is clean in a fresh process: try the run range of that worker chunk
         def range_hits(a):
-            rf = os.path.join(batch.scratch, "range_%d_%d.replay" % (a, nd["run"]))
-            with open(rf, "w") as f:
-                vname = os.path.basename(nd["binary"]).split("_")[-1]
-                knob = "knob min=%d\n" % SEVS.index(vname) if vname in SEVS else ("knob min=0\nknob atomics=1\n" if vname == "atomics" else "")
-                f.write("nitro-verif-replay 1\nengine %s property %s seed %d run %d tier %s\n%srange from=%d to=%d\nexpect class=%s at_op=-1 sig=\"%s\" detail=\"\"\n"
-                        % (batch.engine, batch.prop, batch.seed, nd["run"], batch.tier, knob, a, nd["run"], nd["cls"], nd["sig"]))
+            rf = batch.range_replay_file(nd["binary"], a, nd["run"], nd["cls"], nd["sig"])
             rr = run_cmd([nd["binary"], "--replay", rf, "--prop", batch.prop] + nd["extra"], timeout=900)
             return rr.returncode == 1, rf
         ok1, _ = range_hits(nd["start"])
